@@ -36,8 +36,12 @@ func (s *Server) liveMonitor(conn net.Conn, rd *PipelineReader, msg *Message) er
 		s.monconnsMu.Unlock()
 		conn.Close()
 	}()
+	ack := []byte("+OK\r\n")
+	if msg.OutputType == JSON {
+		ack = []byte("$11\r\n{\"ok\":true}\r\n")
+	}
 	s.monconnsMu.Lock()
-	conn.Write([]byte("+OK\r\n"))
+	conn.Write(ack)
 	s.monconnsMu.Unlock()
 	msgs, err := rd.ReadMessages()
 	if err != nil {
@@ -49,7 +53,7 @@ func (s *Server) liveMonitor(conn net.Conn, rd *PipelineReader, msg *Message) er
 	for _, msg := range msgs {
 		if len(msg.Args) == 1 && strings.ToLower(msg.Args[0]) == "quit" {
 			s.monconnsMu.Lock()
-			conn.Write([]byte("+OK\r\n"))
+			conn.Write(ack)
 			s.monconnsMu.Unlock()
 			return nil
 		}
